@@ -151,7 +151,7 @@ func (g *reflGen) named(comparableOnly bool) *typgen.Expr {
 		}
 		sort.Strings(ks)
 		n := ks[g.r.Intn(len(ks))]
-		if comparableOnly && (names[n].Kind() == reflect.Func || names[n].Kind() == reflect.Map || names[n].Kind() == reflect.Struct || names[n].Kind() == reflect.Interface) {
+		if comparableOnly && (names[n].Kind() == reflect.Func || names[n].Kind() == reflect.Map || names[n].Kind() == reflect.Struct || names[n].Kind() == reflect.Interface || names[n].Kind() == reflect.Slice) {
 			continue
 		}
 		return &typgen.Expr{Kind: "named", Path: p, Name: n}
